@@ -614,6 +614,14 @@ impl Prop for C08 {
         let faults = if k == 0 { vec![] } else { vec![ms[(k - 1) as usize].clone()] };
         Case { inst, params, faults, hash_seed: gs ^ k, direct: false }
     }
+    fn sibling(&self, c: &Case) -> Option<Case> {
+        // every sixth case is preceded, in the same run, by another case of the property (generated from its hash seed)
+        if c.hash_seed % 6 != 4 {
+            return None;
+        }
+        Some(self.gen(&mut Rng::new(c.hash_seed ^ 0x51B1_1B15), Tier::Quick, 0))
+    }
+
     fn sim_params(&self, c: &Case) -> SimParams {
         SimParams { hash_seed: c.hash_seed, ..Default::default() }
     }
